@@ -565,12 +565,14 @@ def read_hm_derive(src):
         i = c + 1
     skel.append(txt[i:])
     skeleton = re.sub(r"\s+", "", "".join(skel))
-    digest = hashlib.sha1(skeleton.encode()).hexdigest()
-    if digest != HM_SKELETON_SHA1:
+    skel_digest = hashlib.sha1(skeleton.encode()).hexdigest()
+    digest = skel_digest
+    if skel_digest != HM_SKELETON_SHA1:
         raise ScanError(
             "%s: the macro code around the quote! templates changed (skeleton sha1 %s, expected %s); "
             "the scanner only understands the known control flow "
             "(struct_has_state / struct_has_save_interval / #[has_state] fields)" % (src.rel, digest, HM_SKELETON_SHA1))
+    digest = hashlib.sha1((skeleton + "|" + "|".join(re.sub(r"\s+", "", clean(q)) for q in quotes)).encode()).hexdigest() + ":" + digest[:0]
     if len(quotes) != 6:
         raise ScanError("%s: expected 6 quote! templates, found %d" % (src.rel, len(quotes)))
 
@@ -658,6 +660,7 @@ SIMS = [("loco", "LocomotiveSimulation"), ("consist", "ConsistSimulation"),
 
 class World:
     def __init__(self, root):
+        self.root = root
         self.src = {k: Source(root, rel) for k, rel in FILES.items()}
         self.digest_parts = []
         self.hm, d = read_hm_derive(self.src["hm"])
@@ -1189,8 +1192,31 @@ def mutation_census(w):
         "conv": [], "bel": [], "hyb": [], "fric": [], "fc": [], "gen": [], "res": [], "edrv": [],
     }
     pat = re.compile(r"(\.\s*i\s*(\+=|-=|=(?!=)))|(history\s*\.\s*(push|pop|clear)\s*\()|(\.\s*save_interval\s*=(?!=))|(\.\s*history\s*=(?!=))|(\.\s*state\s*=(?!=))")
+    # in files that are not anchored only writes through `state` / `history` / `save_interval` are looked for
+    pat_other = re.compile(r"(state\s*\.\s*i\s*(\+=|-=|=(?!=)))|(history\s*\.\s*(push|pop|clear)\s*\()|(\.\s*save_interval\s*=(?!=))|(\.\s*history\s*=(?!=))")
+
+    def check_file(s, spans, rx, fk):
+        spans = list(spans)
+        # test modules are not part of the cascades
+        for m in re.finditer(r"#\[cfg\(test\)\]\s*(?:pub\s+)?mod\s+\w+\s*\{", s.txt):
+            o = m.end() - 1
+            spans.append((o, match_close(s.txt, o)))
+        for m in rx.finditer(s.txt):
+            off = m.start()
+            if any(a <= off < b for (a, b) in spans):
+                continue
+            ls = s.txt.rfind("\n", 0, off) + 1
+            le = s.txt.find("\n", off)
+            line = re.sub(r"\s+", " ", s.txt[ls:le]).strip()
+            if any(re.search(r, line) for (r, _) in explained.get(fk, [])):
+                continue
+            raise ScanError("%s: `%s` writes a step counter / history / save_interval outside the functions "
+                            "the scanner analyses" % (s.where(off), line))
+
+    anchored = set()
     for fk, spec in analysed_fns.items():
         s = w.src[fk]
+        anchored.add(os.path.normpath(s.path))
         spans = []
         for hdr, fns in spec:
             impls = find_impls(s, re.escape(hdr).replace("\\ ", " "))
@@ -1198,20 +1224,15 @@ def mutation_census(w):
                 fn = find_fn(s, impls, f)
                 if fn:
                     spans.append((fn[2], fn[2] + len(fn[1])))
-        # tests modules and python-API blocks are not part of the cascades
-        for m in re.finditer(r"#\[cfg\(test\)\]\s*mod\s+\w+\s*\{", s.txt):
-            o = m.end() - 1
-            spans.append((o, match_close(s.txt, o)))
-        for m in pat.finditer(s.txt):
-            off = m.start()
-            if any(a <= off < b for (a, b) in spans):
+        check_file(s, spans, pat, fk)
+    # every other source file of the crate (files that are test modules as a whole are skipped)
+    base = os.path.join(w.root, "rust/altrios-core/src")
+    for d, _, fs in os.walk(base):
+        for f in sorted(fs):
+            p = os.path.normpath(os.path.join(d, f))
+            if not f.endswith(".rs") or p in anchored or f in ("tests.rs", "test.rs", "testing.rs"):
                 continue
-            ls = s.txt.rfind("\n", 0, off) + 1
-            le = s.txt.find("\n", off)
-            line = re.sub(r"\s+", " ", s.txt[ls:le]).strip()
-            if any(re.search(rx, line) for (rx, _) in explained.get(fk, [])):
-                continue
-            raise ScanError("%s: `%s` writes a step counter / history / save_interval outside the functions the scanner analyses" % (s.where(off), line))
+            check_file(Source(w.root, os.path.relpath(p, w.root)), [], pat_other, None)
 
 
 # ----------------------------------------------------------------------------- Lean emission
